@@ -29,7 +29,7 @@ def Step.WF (cols : List Name) : Step → Prop
   | .orderBy keys => keys ≠ [] ∧ ∀ k ∈ keys, k.name ∈ cols
   | .limit _ => True
   | .fillna _ sub => ∀ n ∈ sub, n ∈ cols
-  | .replace _ _ sub => ∀ n ∈ sub, n ∈ cols
+  | .replace pairs sub => pairs ≠ [] ∧ ∀ n ∈ sub, n ∈ cols
   | .toDF names => names.length = cols.length ∧ names.Nodup
   | .dropna _ _ sub => (∀ n ∈ sub, n ∈ cols) ∧ "num_nulls" ∉ cols
   | .unpivot ids vals var val => (∀ n ∈ ids ++ vals, n ∈ cols) ∧ vals ≠ [] ∧ (ids ++ [var, val]).Nodup
